@@ -183,6 +183,12 @@ BAD_EXPR = {
     "dup-named-term": "-term(z: 1, k: \"v\", a: 2, z: 3)",
     "lowercase-callee": "foo()",
     "lowercase-callee2": "Foo(1)",
+    # only the FIRST / only the LAST character is lower-case; one-letter name; lower-case + digit
+    "lowercase-callee-first": "fOO()",
+    "lowercase-callee-last": "FOo($x)",
+    "lowercase-callee-one": "f($x)",
+    "lowercase-callee-digit": "c1()",
+    "lowercase-callee-selector": "nUMBER($n) ->\n       *[other] o\n    ",
     "bad-escape": "\"\\x\"",
     "bad-escape-brace": "\"\\{\"",
     "bad-unicode-escape": "\"\\u00zz\"",
